@@ -193,3 +193,137 @@ func verifyRecorder(p *Program, ri *recorderInfo, stt *types.Struct) string {
 	}
 	return ""
 }
+
+// A *forwarder* is a module type whose Read hands every call through to its one
+// reader field unchanged — or refuses before reading with (0, non-nil error) —
+// and does nothing else (a context-aware or closable wrapper). As the source of
+// the tee it is equivalent to the reader it wraps: every byte it delivers is a
+// byte the wrapped reader delivered to the same call.
+var forwarderCache = map[*types.Named]*recorderInfo{}
+
+func forwarderOf(p *Program, t types.Type) *recorderInfo {
+	if pt, ok := t.(*types.Pointer); ok {
+		t = pt.Elem()
+	}
+	named, ok := t.(*types.Named)
+	if !ok || named.Obj().Pkg() == nil || !strings.HasPrefix(named.Obj().Pkg().Path(), ModPath) {
+		return nil
+	}
+	if ri, ok := forwarderCache[named]; ok {
+		return ri
+	}
+	forwarderCache[named] = nil
+	stt, ok := named.Underlying().(*types.Struct)
+	if !ok {
+		return nil
+	}
+	src := -1
+	for i := 0; i < stt.NumFields(); i++ {
+		ft := stt.Field(i).Type()
+		if !types.IsInterface(ft) {
+			continue
+		}
+		ms := types.NewMethodSet(ft)
+		for k := 0; k < ms.Len(); k++ {
+			if ms.At(k).Obj().Name() == "Read" {
+				if src >= 0 {
+					return nil
+				}
+				src = i
+			}
+		}
+	}
+	if src < 0 {
+		return nil
+	}
+	short := strings.TrimPrefix(strings.TrimPrefix(named.Obj().Pkg().Path(), ModPath), "/")
+	read := p.Method(short, named.Obj().Name(), "Read")
+	if read == nil || len(read.Params) != 2 || read.Signature.Results().Len() != 2 {
+		return nil
+	}
+	ri := &recorderInfo{T: named, Read: read, Src: src, Rec: -1}
+	e := NewEngine(p)
+	e.EvalInits = true
+	st := newState()
+	cell := e.newCell("fwd", named)
+	init := &Agg{Type: named, Elems: make([]Val, stt.NumFields())}
+	for i := range init.Elems {
+		if i == src {
+			init.Elems[i] = &Opaque{Key: "src", Type: stt.Field(i).Type()}
+		} else {
+			init.Elems[i] = e.SymVal("fwd."+stt.Field(i).Name(), stt.Field(i).Type())
+		}
+	}
+	st.mem[cell] = init
+	pv := e.SymVal("p", read.Params[1].Type())
+	outs := e.Run(read, []Val{&Ptr{Cell: cell}, pv}, st)
+	okAll := len(outs) > 0
+	for _, o := range outs {
+		if o.Kind != "return" {
+			okAll = false
+			break
+		}
+		var call *Event
+		n := 0
+		for k := range o.St.events {
+			ev := &o.St.events[k]
+			if ev.Kind == "invoke" && ev.Fn == "Read" && valKey(ev.Recv) == "src" {
+				call = ev
+				n++
+				continue
+			}
+			if ev.Kind == "invoke" && (ev.Fn == "Err" || ev.Fn == "Done") {
+				continue // asking a context whether it is cancelled
+			}
+			okAll = false
+		}
+		fin, _ := o.St.mem[cell].(*Agg)
+		if fin == nil || valKey(fin) != valKey(init) {
+			okAll = false
+		}
+		ret, _ := o.Ret.(Tuple)
+		if len(ret) != 2 {
+			okAll = false
+			continue
+		}
+		switch {
+		case n == 1 && len(call.Args) == 1 && valKey(call.Args[0]) == valKey(pv):
+			res, _ := call.Res.(Tuple)
+			if len(res) != 2 || valKey(ret[0]) != valKey(res[0]) || valKey(ret[1]) != valKey(res[1]) {
+				okAll = false
+			}
+		case n == 0:
+			f0, _ := ret[0].(*Form)
+			if f0 == nil || !f0.Equal(formInt(0)) {
+				okAll = false
+			}
+			if ev, isE := ret[1].(*ErrVal); isE && ev.IsNil {
+				okAll = false
+			}
+		default:
+			okAll = false
+		}
+	}
+	if !okAll {
+		ri.Why = "its Read is not a plain hand-through of the wrapped reader's Read"
+	}
+	forwarderCache[named] = ri
+	return ri
+}
+
+// forwardedReader returns the value a verified forwarder wraps (nil otherwise).
+func forwardedReader(p *Program, e *Engine, st *State, v Val) Val {
+	ptr, ok := v.(*Ptr)
+	if !ok || ptr.Cell == nil || !ptr.Cell.Alloc || len(ptr.Path) != 0 {
+		return nil
+	}
+	ri := forwarderOf(p, ptr.Cell.Type)
+	if ri == nil || ri.Why != "" {
+		return nil
+	}
+	cur, _ := e.cellVal(st, ptr.Cell).(*Agg)
+	if cur == nil || ri.Src >= len(cur.Elems) {
+		return nil
+	}
+	return cur.Elems[ri.Src]
+}
